@@ -4,8 +4,10 @@
    byte-by-byte rules of Spec/ConvertSpec.v; [wf_sections], [wf_raw] and the two known classes
    are decidable predicates defined there. *)
 From PV.Model Require Import Machine Mapping Views Headers Convert.
-From PV.Spec Require Import MappingSpec ConvertSpec.
-From PV.Proofs Require ConvertProofs.
+From PV.Model Require Dirs Relocs Rich Exports Imports Resources.
+From PV.gen Require Import Layout.
+From PV.Spec Require Import MappingSpec ConvertSpec ConvertSimSpec.
+From PV.Proofs Require ConvertProofs ConvertSimProofs.
 Import ConvertProofs.
 
 (* (4) no panic and no out-of-bounds access on ANY accepted input: every buffer, either format,
@@ -130,11 +132,370 @@ Theorem C06_F37_known_class_witness :
 Proof. exact ConvertProofs.f36_known_class_witness. Qed.
 Print Assumptions C06_F37_known_class_witness.
 
-(* OPEN: C06_directory_queries_equal : every directory parser (exports, imports, relocations, resources, TLS,
-   debug, exceptions, load config, Rich header) returns equal results on PeFile(F) and PeView(to_view F).
-   Covered here only through C06_prefix_simulation (every slice the parsers take from the file view is a
-   prefix of the slice they take from the converted view) and, for one typed reader, C06_c_str_simulation;
-   the directory parsers themselves are not modelled in C06. *)
+(* ======================================================================================================
+   Second layer: "every directory query gives equal results on both".
+   Setting of every statement below ([conv_setting], Spec/ConvertSimSpec.v): a section table of u32 fields,
+   well-formed ([wf_sections]), SizeOfHeaders <= len F, SizeOfHeaders <= SizeOfImage, and V = to_view F.
+   vf = [file_view aF w b soh soi secs F] is what PeFile::from_bytes(F) holds, vv = [mapped_view aV ..] what
+   PeView::from_bytes(V) holds: same decoded header fields and ImageBase (C06_headers_equal proves that for the
+   real constructors), different buffer, machine address (aF, aV) and align kind.
+   [align_compat al aF aV]: the two buffers are congruent modulo the alignment [al] of the read (al divides 2^64).
+   [path]: RvaPath = the derva_* family (through [slice]), VaPath = the deref_* family (through [read]).
+   Direction: file => view.  The converse is false in general: the view also serves the headers, the
+   virtual-only zero tail of every section and the gaps between sections, where the file view fails. *)
+
+(* (5) the slicing functions, both families, any alignment: generalises C06_prefix_simulation.
+   [agree_len F secs rva] bytes from the RVA on are equal: up to the end of min(VS,SRD) of the section, and up to
+   the end of the raw data (the whole file slice) when the raw tail beyond VirtualSize is zero padding *)
+Theorem C06_slice_simulation : forall img V soh soi secs, conv_setting img soh soi secs V ->
+  forall aF aV w b, let vf := file_view aF w b soh soi secs img in let vv := mapped_view aV w b soh soi secs V in
+  forall p a ms al rf, align_compat al aF aV = true -> sl_of p vf a ms al = Ok rf ->
+  exists rv, sl_of p vv a ms al = Ok rv /\ r_off rv = rva_of p b a /\ r_len rf <= r_len rv /\
+    forall j, j < agree_len (byte_at img) secs (rva_of p b a) -> byte_at img (r_off rf + j) = byte_at V (rva_of p b a + j).
+Proof. exact ConvertSimProofs.sl_sim. Qed.
+Print Assumptions C06_slice_simulation.
+
+(* (6) typed reads, general form.  Fixed-size reads (derva/deref, derva_copy/_into, derva_slice/deref_slice)
+   succeed on the view whenever they succeed on the file, with the same length, at the RVA itself; the first
+   min(length, agree_len) bytes are equal. *)
+Theorem C06_rd_simulation : forall img V soh soi secs, conv_setting img soh soi secs V ->
+  forall aF aV w b, let vf := file_view aF w b soh soi secs img in let vv := mapped_view aV w b soh soi secs V in
+  forall p a size al r, align_compat al aF aV = true -> rd (sl_of p vf) a size al = Ok r ->
+  exists r', rd (sl_of p vv) a size al = Ok r' /\ r_off r' = rva_of p b a /\ r_len r' = r_len r /\
+    forall j, j < N.min (r_len r) (agree_len (byte_at img) secs (rva_of p b a)) -> byte_at img (r_off r + j) = byte_at V (r_off r' + j).
+Proof. exact ConvertSimProofs.v_rd_sim. Qed.
+Print Assumptions C06_rd_simulation.
+
+Theorem C06_rd_copy_simulation : forall img V soh soi secs, conv_setting img soh soi secs V ->
+  forall aF aV w b, let vf := file_view aF w b soh soi secs img in let vv := mapped_view aV w b soh soi secs V in
+  forall p a size r, rd_copy (sl_of p vf) a size = Ok r ->
+  exists r', rd_copy (sl_of p vv) a size = Ok r' /\ r_off r' = rva_of p b a /\ r_len r' = r_len r /\
+    forall j, j < N.min (r_len r) (agree_len (byte_at img) secs (rva_of p b a)) -> byte_at img (r_off r + j) = byte_at V (r_off r' + j).
+Proof. exact ConvertSimProofs.v_rd_copy_sim. Qed.
+Print Assumptions C06_rd_copy_simulation.
+
+Theorem C06_rd_slice_simulation : forall img V soh soi secs, conv_setting img soh soi secs V ->
+  forall aF aV w b, let vf := file_view aF w b soh soi secs img in let vv := mapped_view aV w b soh soi secs V in
+  forall p a size al len r, align_compat al aF aV = true -> rd_slice (sl_of p vf) a size al len = Ok r ->
+  exists r', rd_slice (sl_of p vv) a size al len = Ok r' /\ r_off r' = rva_of p b a /\ r_len r' = r_len r /\
+    forall j, j < N.min (r_len r) (agree_len (byte_at img) secs (rva_of p b a)) -> byte_at img (r_off r + j) = byte_at V (r_off r' + j).
+Proof. exact ConvertSimProofs.v_rd_slice_sim. Qed.
+Print Assumptions C06_rd_slice_simulation.
+
+(* the sentinel readers (derva_slice_f/_s, deref_slice_s, derva_c_str): the proviso is decidable -
+   [inside_agree]: the elements read INCLUDING the terminating one lie in the agreeing part of the section *)
+Theorem C06_rd_slice_f_simulation : forall img V soh soi secs, conv_setting img soh soi secs V ->
+  forall aF aV w b, let vf := file_view aF w b soh soi secs img in let vv := mapped_view aV w b soh soi secs V in
+  forall p a size al q r, align_compat al aF aV = true -> 0 < size ->
+  rd_slice_f (byte_at img) (sl_of p vf) a size al q = Ok r ->
+  inside_agree (byte_at img) secs (rva_of p b a) (r_len r + size) = true ->
+  exists r', rd_slice_f (byte_at V) (sl_of p vv) a size al q = Ok r' /\ r_off r' = rva_of p b a /\ r_len r' = r_len r /\
+    forall j, j < r_len r + size -> byte_at img (r_off r + j) = byte_at V (r_off r' + j).
+Proof. exact ConvertSimProofs.v_rd_slice_f_sim. Qed.
+Print Assumptions C06_rd_slice_f_simulation.
+
+Theorem C06_rd_slice_s_simulation : forall img V soh soi secs, conv_setting img soh soi secs V ->
+  forall aF aV w b, let vf := file_view aF w b soh soi secs img in let vv := mapped_view aV w b soh soi secs V in
+  forall p a size al s r, align_compat al aF aV = true -> 0 < size ->
+  rd_slice_s (byte_at img) (sl_of p vf) a size al s = Ok r ->
+  inside_agree (byte_at img) secs (rva_of p b a) (r_len r + size) = true ->
+  exists r', rd_slice_s (byte_at V) (sl_of p vv) a size al s = Ok r' /\ r_off r' = rva_of p b a /\ r_len r' = r_len r /\
+    forall j, j < r_len r + size -> byte_at img (r_off r + j) = byte_at V (r_off r' + j).
+Proof. exact ConvertSimProofs.v_rd_slice_s_sim. Qed.
+Print Assumptions C06_rd_slice_s_simulation.
+
+Theorem C06_rd_c_str_simulation : forall img V soh soi secs, conv_setting img soh soi secs V ->
+  forall aF aV w b, let vf := file_view aF w b soh soi secs img in let vv := mapped_view aV w b soh soi secs V in
+  forall p a r, rd_c_str (byte_at img) (sl_of p vf) a = Ok r ->
+  inside_agree (byte_at img) secs (rva_of p b a) (r_len r) = true ->
+  exists r', rd_c_str (byte_at V) (sl_of p vv) a = Ok r' /\ r_off r' = rva_of p b a /\ r_len r' = r_len r /\
+    forall j, j < r_len r -> byte_at img (r_off r + j) = byte_at V (r_off r' + j).
+Proof. exact ConvertSimProofs.v_rd_c_str_sim. Qed.
+Print Assumptions C06_rd_c_str_simulation.
+
+(* (7) outside the known class raw_tail_not_mapped (F37) no proviso is left: EVERY typed read that succeeds on
+   the file view succeeds on the view over the converted buffer and returns a region with the same bytes
+   ([region_sim]: same length, equal contents) that starts at the RVA read *)
+Theorem C06_rd_equal : forall img V soh soi secs, conv_setting img soh soi secs V ->
+  forall aF aV w b, let vf := file_view aF w b soh soi secs img in let vv := mapped_view aV w b soh soi secs V in
+  raw_tail_not_mapped (byte_at img) secs = false ->
+  forall p a size al r, align_compat al aF aV = true -> rd (sl_of p vf) a size al = Ok r ->
+  exists r', rd (sl_of p vv) a size al = Ok r' /\ r_off r' = rva_of p b a /\ region_sim (byte_at img) (byte_at V) r r'.
+Proof. exact ConvertSimProofs.v_rd_full. Qed.
+Print Assumptions C06_rd_equal.
+
+Theorem C06_rd_slice_equal : forall img V soh soi secs, conv_setting img soh soi secs V ->
+  forall aF aV w b, let vf := file_view aF w b soh soi secs img in let vv := mapped_view aV w b soh soi secs V in
+  raw_tail_not_mapped (byte_at img) secs = false ->
+  forall p a size al len r, align_compat al aF aV = true -> rd_slice (sl_of p vf) a size al len = Ok r ->
+  exists r', rd_slice (sl_of p vv) a size al len = Ok r' /\ r_off r' = rva_of p b a /\ region_sim (byte_at img) (byte_at V) r r'.
+Proof. exact ConvertSimProofs.v_rd_slice_full. Qed.
+Print Assumptions C06_rd_slice_equal.
+
+Theorem C06_rd_slice_f_equal : forall img V soh soi secs, conv_setting img soh soi secs V ->
+  forall aF aV w b, let vf := file_view aF w b soh soi secs img in let vv := mapped_view aV w b soh soi secs V in
+  raw_tail_not_mapped (byte_at img) secs = false ->
+  forall p a size al q r, align_compat al aF aV = true -> 0 < size ->
+  rd_slice_f (byte_at img) (sl_of p vf) a size al q = Ok r ->
+  exists r', rd_slice_f (byte_at V) (sl_of p vv) a size al q = Ok r' /\ r_off r' = rva_of p b a /\
+    region_sim (byte_at img) (byte_at V) r r' /\
+    forall j, j < r_len r + size -> byte_at img (r_off r + j) = byte_at V (r_off r' + j).
+Proof. exact ConvertSimProofs.v_rd_slice_f_full. Qed.
+Print Assumptions C06_rd_slice_f_equal.
+
+Theorem C06_rd_slice_s_equal : forall img V soh soi secs, conv_setting img soh soi secs V ->
+  forall aF aV w b, let vf := file_view aF w b soh soi secs img in let vv := mapped_view aV w b soh soi secs V in
+  raw_tail_not_mapped (byte_at img) secs = false ->
+  forall p a size al s r, align_compat al aF aV = true -> 0 < size ->
+  rd_slice_s (byte_at img) (sl_of p vf) a size al s = Ok r ->
+  exists r', rd_slice_s (byte_at V) (sl_of p vv) a size al s = Ok r' /\ r_off r' = rva_of p b a /\
+    region_sim (byte_at img) (byte_at V) r r' /\
+    forall j, j < r_len r + size -> byte_at img (r_off r + j) = byte_at V (r_off r' + j).
+Proof. exact ConvertSimProofs.v_rd_slice_s_full. Qed.
+Print Assumptions C06_rd_slice_s_equal.
+
+Theorem C06_rd_c_str_equal : forall img V soh soi secs, conv_setting img soh soi secs V ->
+  forall aF aV w b, let vf := file_view aF w b soh soi secs img in let vv := mapped_view aV w b soh soi secs V in
+  raw_tail_not_mapped (byte_at img) secs = false ->
+  forall p a r, rd_c_str (byte_at img) (sl_of p vf) a = Ok r ->
+  exists r', rd_c_str (byte_at V) (sl_of p vv) a = Ok r' /\ r_off r' = rva_of p b a /\ region_sim (byte_at img) (byte_at V) r r'.
+Proof. exact ConvertSimProofs.v_rd_c_str_full. Qed.
+Print Assumptions C06_rd_c_str_equal.
+
+(* (8) the directory parsers, outside F37: parse on vf = Ok x  ->  parse on vv = Ok x' with x' equal to x up to
+   the buffer offsets of the borrows.  [dd] is data_directory().get(i), the same on both by C06_headers_equal. *)
+
+(* exports: the three tables, image.Base and the directory entry - the decoded [tables] are EQUAL *)
+Theorem C06_exports_equal : forall img V soh soi secs, conv_setting img soh soi secs V ->
+  forall aF aV w b, let vf := file_view aF w b soh soi secs img in let vv := mapped_view aV w b soh soi secs V in
+  raw_tail_not_mapped (byte_at img) secs = false ->
+  forall dd t, align_compat 4 aF aV = true -> Exports.view_by vf dd = Ok t -> Exports.view_by vv dd = Ok t.
+Proof. exact ConvertSimProofs.exports_by_sim. Qed.
+Print Assumptions C06_exports_equal.
+
+(* the export / forwarder name strings (derva_c_str as bytes) *)
+Theorem C06_export_names_equal : forall img V soh soi secs, conv_setting img soh soi secs V ->
+  forall aF aV w b, let vf := file_view aF w b soh soi secs img in let vv := mapped_view aV w b soh soi secs V in
+  raw_tail_not_mapped (byte_at img) secs = false ->
+  forall a s, Exports.view_cstr vf a = Ok s -> Exports.view_cstr vv a = Ok s.
+Proof. exact ConvertSimProofs.view_cstr_sim. Qed.
+Print Assumptions C06_export_names_equal.
+
+(* the lookups: by ordinal and by name (binary search) *)
+Theorem C06_get_export_ordinal_equal : forall img V soh soi secs, conv_setting img soh soi secs V ->
+  forall aF aV w b, let vf := file_view aF w b soh soi secs img in let vv := mapped_view aV w b soh soi secs V in
+  raw_tail_not_mapped (byte_at img) secs = false ->
+  forall dd o e, align_compat 4 aF aV = true ->
+  Exports.get_export_ordinal vf dd o = Ok e -> Exports.get_export_ordinal vv dd o = Ok e.
+Proof. exact ConvertSimProofs.get_export_ordinal_sim. Qed.
+Print Assumptions C06_get_export_ordinal_equal.
+
+Theorem C06_get_export_name_equal : forall img V soh soi secs, conv_setting img soh soi secs V ->
+  forall aF aV w b, let vf := file_view aF w b soh soi secs img in let vv := mapped_view aV w b soh soi secs V in
+  raw_tail_not_mapped (byte_at img) secs = false ->
+  forall dd nm e, align_compat 4 aF aV = true ->
+  Exports.get_export_name vf dd nm = Ok e -> Exports.get_export_name vv dd nm = Ok e.
+Proof. exact ConvertSimProofs.get_export_name_sim. Qed.
+Print Assumptions C06_get_export_name_equal.
+
+(* imports: the descriptor array (values equal), given the same directory entry ... *)
+Theorem C06_imports_equal : forall img V soh soi secs, conv_setting img soh soi secs V ->
+  forall aF aV w b, let vf := file_view aF w b soh soi secs img in let vv := mapped_view aV w b soh soi secs V in
+  raw_tail_not_mapped (byte_at img) secs = false ->
+  forall f r, let pF := {| Imports.p_f := f; Imports.p_v := vf |} in let pV := {| Imports.p_f := f; Imports.p_v := vv |} in
+  align_compat 4 aF aV = true ->
+  Imports.dir_entry pV IMAGE_DIRECTORY_ENTRY_IMPORT = Imports.dir_entry pF IMAGE_DIRECTORY_ENTRY_IMPORT ->
+  Imports.imports pF = Ok r ->
+  exists r', Imports.imports pV = Ok r' /\ region_sim (byte_at img) (byte_at V) r r' /\ Imports.descs pF r = Imports.descs pV r'.
+Proof. exact ConvertSimProofs.imports_sim. Qed.
+Print Assumptions C06_imports_equal.
+
+(* ... which the two real constructors supply: PeFile::from_bytes(F).imports() and PeView::from_bytes(to_view F).imports() *)
+Theorem C06_pe_imports_equal : forall f aF aV img V x, f = fmt32 \/ f = fmt64 ->
+  let mF := mem_of aF img in
+  validate f mF = Ok x -> headers_within f mF = true ->
+  conv_setting img (h_soh f mF) (h_soi f mF) (sections f mF) V ->
+  forall w b r,
+  let pF := {| Imports.p_f := f; Imports.p_v := file_view aF w b (h_soh f mF) (h_soi f mF) (sections f mF) img |} in
+  let pV := {| Imports.p_f := f; Imports.p_v := mapped_view aV w b (h_soh f mF) (h_soi f mF) (sections f mF) V |} in
+  aligned_to 4 aV = true -> raw_tail_not_mapped (byte_at img) (sections f mF) = false ->
+  Imports.imports pF = Ok r ->
+  exists r', Imports.imports pV = Ok r' /\ region_sim (byte_at img) (byte_at V) r r' /\ Imports.descs pF r = Imports.descs pV r'.
+Proof. exact ConvertSimProofs.pe_imports_sim. Qed.
+Print Assumptions C06_pe_imports_equal.
+
+(* dll names, thunk arrays (IAT / INT of a descriptor; the Va values are equal), one import entry
+   (hint and name bytes equal, [import_vals]), the IAT directory *)
+Theorem C06_dll_name_equal : forall img V soh soi secs, conv_setting img soh soi secs V ->
+  forall aF aV w b, let vf := file_view aF w b soh soi secs img in let vv := mapped_view aV w b soh soi secs V in
+  raw_tail_not_mapped (byte_at img) secs = false ->
+  forall f d r, let pF := {| Imports.p_f := f; Imports.p_v := vf |} in let pV := {| Imports.p_f := f; Imports.p_v := vv |} in
+  Imports.dll_name pF d = Ok r -> exists r', Imports.dll_name pV d = Ok r' /\ region_sim (byte_at img) (byte_at V) r r'.
+Proof. exact ConvertSimProofs.dll_name_sim. Qed.
+Print Assumptions C06_dll_name_equal.
+
+Theorem C06_thunks_equal : forall img V soh soi secs, conv_setting img soh soi secs V ->
+  forall aF aV w b, let vf := file_view aF w b soh soi secs img in let vv := mapped_view aV w b soh soi secs V in
+  raw_tail_not_mapped (byte_at img) secs = false ->
+  forall f rva r, let pF := {| Imports.p_f := f; Imports.p_v := vf |} in let pV := {| Imports.p_f := f; Imports.p_v := vv |} in
+  align_compat (Imports.va_bytes pF) aF aV = true -> Imports.thunks pF rva = Ok r ->
+  exists r', Imports.thunks pV rva = Ok r' /\ region_sim (byte_at img) (byte_at V) r r' /\
+    Imports.thunk_values pF r = Imports.thunk_values pV r'.
+Proof. exact ConvertSimProofs.thunks_sim. Qed.
+Print Assumptions C06_thunks_equal.
+
+Theorem C06_import_from_va_equal : forall img V soh soi secs, conv_setting img soh soi secs V ->
+  forall aF aV w b, let vf := file_view aF w b soh soi secs img in let vv := mapped_view aV w b soh soi secs V in
+  raw_tail_not_mapped (byte_at img) secs = false ->
+  forall f va i, let pF := {| Imports.p_f := f; Imports.p_v := vf |} in let pV := {| Imports.p_f := f; Imports.p_v := vv |} in
+  align_compat 2 aF aV = true -> Imports.import_from_va pF va = Ok i ->
+  exists i', Imports.import_from_va pV va = Ok i' /\ import_vals (byte_at img) i = import_vals (byte_at V) i'.
+Proof. exact ConvertSimProofs.import_from_va_sim. Qed.
+Print Assumptions C06_import_from_va_equal.
+
+Theorem C06_iat_equal : forall img V soh soi secs, conv_setting img soh soi secs V ->
+  forall aF aV w b, let vf := file_view aF w b soh soi secs img in let vv := mapped_view aV w b soh soi secs V in
+  raw_tail_not_mapped (byte_at img) secs = false ->
+  forall f r, let pF := {| Imports.p_f := f; Imports.p_v := vf |} in let pV := {| Imports.p_f := f; Imports.p_v := vv |} in
+  align_compat (Imports.va_bytes pF) aF aV = true ->
+  Imports.dir_entry pV IMAGE_DIRECTORY_ENTRY_IAT = Imports.dir_entry pF IMAGE_DIRECTORY_ENTRY_IAT ->
+  Imports.iat pF = Ok r ->
+  exists r', Imports.iat pV = Ok r' /\ region_sim (byte_at img) (byte_at V) r r' /\ Imports.thunk_values pF r = Imports.thunk_values pV r'.
+Proof. exact ConvertSimProofs.iat_sim. Qed.
+Print Assumptions C06_iat_equal.
+
+(* base relocations: the directory bytes, hence the blocks and the (rva, type) pairs of Model/Relocs.v *)
+Theorem C06_relocs_equal : forall img V soh soi secs, conv_setting img soh soi secs V ->
+  forall aF aV w b, let vf := file_view aF w b soh soi secs img in let vv := mapped_view aV w b soh soi secs V in
+  raw_tail_not_mapped (byte_at img) secs = false ->
+  forall dd r, align_compat 4 aF aV = true -> relocs_try_from vf dd = Ok r ->
+  exists r', relocs_try_from vv dd = Ok r' /\ region_sim (byte_at img) (byte_at V) r r' /\
+    relocs_data vf r = relocs_data vv r' /\
+    Relocs.blocks (relocs_data vf r) = Relocs.blocks (relocs_data vv r') /\
+    Relocs.fold_pairs (relocs_data vf r) = Relocs.fold_pairs (relocs_data vv r').
+Proof. exact ConvertSimProofs.relocs_sim. Qed.
+Print Assumptions C06_relocs_equal.
+
+(* exception directory: the RUNTIME_FUNCTION table *)
+Theorem C06_exception_equal : forall img V soh soi secs, conv_setting img soh soi secs V ->
+  forall aF aV w b, let vf := file_view aF w b soh soi secs img in let vv := mapped_view aV w b soh soi secs V in
+  raw_tail_not_mapped (byte_at img) secs = false ->
+  forall dd r, align_compat 4 aF aV = true -> Dirs.exception_try_from vf dd = Ok r ->
+  exists r', Dirs.exception_try_from vv dd = Ok r' /\ r_off r' = fst (match dd with Some d => d | None => (0, 0) end) /\
+    region_sim (byte_at img) (byte_at V) r r' /\ Dirs.exception_functions vf r = Dirs.exception_functions vv r'.
+Proof. exact ConvertSimProofs.exception_sim. Qed.
+Print Assumptions C06_exception_equal.
+
+(* debug directory: the IMAGE_DEBUG_DIRECTORY table (field values; not the payloads, which a file addresses by
+   PointerToRawData and a mapped image by AddressOfRawData) *)
+Theorem C06_debug_equal : forall img V soh soi secs, conv_setting img soh soi secs V ->
+  forall aF aV w b, let vf := file_view aF w b soh soi secs img in let vv := mapped_view aV w b soh soi secs V in
+  raw_tail_not_mapped (byte_at img) secs = false ->
+  forall dd r, align_compat 4 aF aV = true -> Dirs.debug_try_from vf dd = Ok r ->
+  exists r', Dirs.debug_try_from vv dd = Ok r' /\ region_sim (byte_at img) (byte_at V) r r' /\
+    map ddir_vals (Dirs.debug_dirs vf r) = map ddir_vals (Dirs.debug_dirs vv r').
+Proof. exact ConvertSimProofs.debug_sim. Qed.
+Print Assumptions C06_debug_equal.
+
+(* TLS: the directory, its four pointer fields, and what they point to (raw data, slot, callbacks; VA path) *)
+Theorem C06_tls_equal : forall img V soh soi secs, conv_setting img soh soi secs V ->
+  forall aF aV w b, let vf := file_view aF w b soh soi secs img in let vv := mapped_view aV w b soh soi secs V in
+  raw_tail_not_mapped (byte_at img) secs = false ->
+  forall dd t, align_compat (Dirs.va_size vf) aF aV = true -> Dirs.tls_try_from vf dd = Ok t ->
+  exists t', Dirs.tls_try_from vv dd = Ok t' /\ region_sim (byte_at img) (byte_at V) t t' /\
+    Dirs.tls_start vf t = Dirs.tls_start vv t' /\ Dirs.tls_end vf t = Dirs.tls_end vv t' /\
+    Dirs.tls_index vf t = Dirs.tls_index vv t' /\ Dirs.tls_cb vf t = Dirs.tls_cb vv t' /\
+    (forall r, Dirs.tls_raw_data vf t = Ok r -> exists r', Dirs.tls_raw_data vv t' = Ok r' /\ region_sim (byte_at img) (byte_at V) r r') /\
+    (forall r, align_compat 4 aF aV = true -> Dirs.tls_slot vf t = Ok r ->
+               exists r', Dirs.tls_slot vv t' = Ok r' /\ region_sim (byte_at img) (byte_at V) r r') /\
+    (forall r, Dirs.tls_callbacks vf t = Ok r -> exists r', Dirs.tls_callbacks vv t' = Ok r' /\ region_sim (byte_at img) (byte_at V) r r').
+Proof. exact ConvertSimProofs.tls_sim. Qed.
+Print Assumptions C06_tls_equal.
+
+(* load config: the directory, SecurityCookie / SEHandlerTable / SEHandlerCount and what they point to *)
+Theorem C06_load_config_equal : forall img V soh soi secs, conv_setting img soh soi secs V ->
+  forall aF aV w b, let vf := file_view aF w b soh soi secs img in let vv := mapped_view aV w b soh soi secs V in
+  raw_tail_not_mapped (byte_at img) secs = false ->
+  forall dd t, align_compat (Dirs.va_size vf) aF aV = true -> Dirs.load_config_try_from vf dd = Ok t ->
+  exists t', Dirs.load_config_try_from vv dd = Ok t' /\ region_sim (byte_at img) (byte_at V) t t' /\
+    Dirs.lc_cookie_ptr vf t = Dirs.lc_cookie_ptr vv t' /\ Dirs.lc_table_ptr vf t = Dirs.lc_table_ptr vv t' /\
+    Dirs.lc_count vf t = Dirs.lc_count vv t' /\
+    (forall r, align_compat 4 aF aV = true -> Dirs.lc_security_cookie vf t = Ok r ->
+               exists r', Dirs.lc_security_cookie vv t' = Ok r' /\ region_sim (byte_at img) (byte_at V) r r') /\
+    (forall r, Dirs.lc_se_handler_table vf t = Ok r -> exists r', Dirs.lc_se_handler_table vv t' = Ok r' /\ region_sim (byte_at img) (byte_at V) r r').
+Proof. exact ConvertSimProofs.load_config_sim. Qed.
+Print Assumptions C06_load_config_equal.
+
+(* resources: the resource SECTION handed to the parsers (same VirtualAddress, the view's at least as long,
+   equal bytes; equal length when the directory Size fits the stored data).  The tree walkers themselves are
+   covered by correspondence only. *)
+Theorem C06_resources_section_equal : forall img V soh soi secs, conv_setting img soh soi secs V ->
+  forall aF aV w b, let vf := file_view aF w b soh soi secs img in let vv := mapped_view aV w b soh soi secs V in
+  raw_tail_not_mapped (byte_at img) secs = false ->
+  forall dd s, view_resources vf dd = Ok s ->
+  exists s', view_resources vv dd = Ok s' /\ Resources.rs_va s' = Resources.rs_va s /\
+    Resources.rs_len s <= Resources.rs_len s' /\
+    (forall i, i < Resources.rs_len s -> Resources.rs_get s i = Resources.rs_get s' i) /\
+    (forall va size, dd = Some (va, size) -> Resources.rs_len s = size -> Resources.rs_len s' = size).
+Proof. exact ConvertSimProofs.resources_sim. Qed.
+Print Assumptions C06_resources_section_equal.
+
+(* security: NOT equal by design - a mapped view has no security directory (security.rs:9) *)
+Theorem C06_security_view_unmapped : forall V soh soi secs aV w b dd,
+  Dirs.security_try_from (mapped_view aV w b soh soi secs V) dd = Err EUnmapped.
+Proof. exact ConvertSimProofs.security_view. Qed.
+Print Assumptions C06_security_view_unmapped.
+
+(* (9) the headers.  validate_headers bounds the headers by the buffer length only; when they also lie inside
+   SizeOfHeaders ([headers_within], decidable) the converted buffer is accepted by PeView::from_bytes and decodes
+   the same e_lfanew, SizeOfHeaders, SizeOfImage, ImageBase, section table and data directory: vf and vv above
+   are what the two constructors hold.  (This also proves what the driver's tag [roundtrip] checked per case.) *)
+Theorem C06_headers_equal : forall f aF aV img V x, f = fmt32 \/ f = fmt64 ->
+  let mF := mem_of aF img in let mV := mem_of aV V in
+  validate f mF = Ok x -> headers_within f mF = true ->
+  conv_setting img (h_soh f mF) (h_soi f mF) (sections f mF) V -> aligned_to 4 aV = true ->
+  validate f mV = Ok x /\ e_lfanew mV = e_lfanew mF /\ h_soh f mV = h_soh f mF /\ h_soi f mV = h_soi f mF /\
+  h_base f mV = h_base f mF /\ sections f mV = sections f mF /\
+  (forall i, Headers.data_dir f mV i = Headers.data_dir f mF i).
+Proof. exact ConvertSimProofs.pe_headers_sim. Qed.
+Print Assumptions C06_headers_equal.
+
+(* the Rich structure is read from the dwords below e_lfanew <= SizeOfHeaders only: identical result, key,
+   records and checksum *)
+Theorem C06_rich_equal : forall f aF img V, let mF := mem_of aF img in
+  headers_within f mF = true -> conv_setting img (h_soh f mF) (h_soi f mF) (sections f mF) V ->
+  view_rich (byte_at V) (lenN V) = view_rich (byte_at img) (lenN img) /\
+  forall se, view_rich (byte_at img) (lenN img) = Ok se ->
+    Rich.xor_key (dwords_of (byte_at V) (lenN V)) se = Rich.xor_key (dwords_of (byte_at img) (lenN img)) se /\
+    Rich.records (dwords_of (byte_at V) (lenN V)) se = Rich.records (dwords_of (byte_at img) (lenN img)) se /\
+    Rich.checksum (dwords_of (byte_at V) (lenN V)) se = Rich.checksum (dwords_of (byte_at img) (lenN img)) se.
+Proof. exact ConvertSimProofs.pe_rich_sim. Qed.
+Print Assumptions C06_rich_equal.
+
+(* Headers::check_sum is NOT preserved (it sums the whole buffer and adds its length): a well-formed
+   two-section image outside both known classes whose mapped form has a different sum *)
+Theorem C06_check_sum_not_preserved :
+  conv_setting ConvertSimProofs.cs_img 2 12 ConvertSimProofs.cs_secs ConvertSimProofs.cs_V /\
+  raw_tail_not_mapped (byte_at ConvertSimProofs.cs_img) ConvertSimProofs.cs_secs = false /\
+  check_sum fmt32 (mem_of 0 ConvertSimProofs.cs_V) <> check_sum fmt32 (mem_of 0 ConvertSimProofs.cs_img) /\
+  check_sum fmt64 (mem_of 0 ConvertSimProofs.cs_V) <> check_sum fmt64 (mem_of 0 ConvertSimProofs.cs_img).
+Proof. exact ConvertSimProofs.check_sum_not_preserved. Qed.
+Print Assumptions C06_check_sum_not_preserved.
+
+(* OPEN: C06_directory_queries_equal : every directory query returns equal results on PeFile(F) and
+   PeView(to_view F).  Proved above, file => view, outside F37 (and inside it under [inside_agree]):
+   every typed read; exports (tables, names, lookup by ordinal and by name); imports (descriptors, dll names,
+   thunk arrays, import entries, IAT); base relocations; exception table; debug directory table; TLS; load
+   config; the resource section; the Rich structure (both directions, it is an equality); the header fields.
+   Still open: (a) the converse direction view => file, false in general (the view also reads headers, zero
+   tails and gaps) - no statement of the exact set of RVAs where it holds; (b) the resource tree walkers on the
+   two resource sections (need a frame lemma for Model/Resources.v: every parser reads below rs_len only);
+   (c) the debug entry payloads (code_view / dbg / pgo: dir_data uses PointerToRawData on a file and
+   AddressOfRawData on a view, equal only when the two fields point at the same stored bytes);
+   (d) Exports name_linear / iterators and unwind_info / function_bytes of the exception directory (thin
+   over the typed reads, not written down); (e) lookups that IGNORE read errors (name_linear skips a name
+   whose derva_c_str fails; on the view that read may succeed) are not monotone.
+   Not equal by design: security directory (file only), check_sum. *)
 
 Example C06_nonvacuous :
   Forall section_ok ex_secs /\ wf_sections (lenN ex_img) 2 12 ex_secs = true /\ wf_raw 2 ex_secs = true /\
